@@ -110,6 +110,34 @@ def factor_inputs(ctx, prog, X, name, P):
             A0 = np.dot(np.dot(Q0, Lm), Q0.T)
             if ctx.mode == 'sym':
                 stubs.register('eigh', A0, (np.array(lam, dtype=object), Q0))
+        elif fac == 'eig':
+            # general (non-symmetric) matrix with real distinct eigenvalues: A0 = Q0 diag(lam) Q0^-1
+            # (the stub returns Q0 unnormalised; the programs' outputs do not depend on the scaling
+            # or the order of the eigenvectors)
+            Q0 = c08.V(ctx, 'Q' + tag, (M, M))
+            det = Q0[0, 0] * Q0[1, 1] - Q0[0, 1] * Q0[1, 0]
+            if ctx.mode == 'sym':
+                ctx.assume(det != 0)
+            else:
+                ctx.assume(abs(det) > 1e-2)
+            lam = [ctx.var('lam%s_%d' % (tag, i)) for i in range(M)]
+            if ctx.mode == 'sym':
+                ctx.assume(lam[0] != lam[1])
+            else:
+                ctx.assume(abs(lam[0] - lam[1]) > 1e-2)
+            Lm = np.empty((M, M), dtype=object)
+            for i in range(M):
+                for j in range(M):
+                    Lm[i, j] = lam[i] if i == j else (0.0 if ctx.mode == 'float' else S.const(0))
+            Qi = npx.exact_inv(Q0) if ctx.mode == 'sym' else np.linalg.inv(np.array(Q0.tolist(), dtype=float))
+            A0 = np.dot(np.dot(Q0, Lm), Qi)
+            if ctx.mode == 'sym':
+                stubs.register('eig', A0, (np.array(lam, dtype=object), Q0))
+        elif fac == 'svd':
+            # A0 = U0 S V0^T, s1 > s2 > 0 (2x2 or 2x3), see c08.svd_base
+            A0 = c08.svd_base(ctx, M, N, tag, fixed=('fixedrot' in prog.tags))
+            if ctx.mode == 'sym':
+                stubs.ALLOW_ORTHONORMAL_QR[0] = True      # (svd calls qr_full on an orthogonal block and slices the result away)
         else:
             raise KeyError(fac)
         X[0, p] = A0
@@ -346,11 +374,21 @@ def units(tier, seed):
     for prog in PR.catalogue():
         if 'slow' in prog.tags and tier == 'quick':
             continue
-        Pp = 1 if ('clip' in prog.tags or prog.name in ('absolute', 'sign') or 'slow' in prog.tags) else P
-        Dp = 2 if 'slow' in prog.tags else D
+        if 'Dmax2' in prog.tags:
+            # order 0 (the vector-Jacobian product) with two directions for every eig/svd program ...
+            out.append(Unit('C03/%s/D1,P2' % prog.name, 'symx.props.c03', 'h_prog', {'pname': prog.name, 'D': 1, 'P': 2},
+                            dict(opts, crosscheck=False)))
+            # ... order 1 where the solver finishes: all outputs of svd together do not (D1only); one
+            # projector at a time does in ~2 min (heavy: thorough tier)
+            if 'D1only' in prog.tags or ('heavy' in prog.tags and tier == 'quick'):
+                continue
+        Pp = 1 if ('clip' in prog.tags or prog.name in ('absolute', 'sign') or 'slow' in prog.tags or 'Dmax2' in prog.tags) else P
+        Dp = 2 if ('slow' in prog.tags or 'Dmax2' in prog.tags) else D     # (Dmax2: UTPM.eig supports D <= 2 only; svd beyond D = 2 exceeds the time limit)
         out.append(Unit('C03/%s/D%d,P%d' % (prog.name, Dp, Pp), 'symx.props.c03', 'h_prog',
                         {'pname': prog.name, 'D': Dp, 'P': Pp},
-                        dict(opts, unit_timeout=2400, path_budget=2000) if 'slow' in prog.tags else dict(opts)))
+                        dict(opts, unit_timeout=2400, path_budget=2000) if 'slow' in prog.tags
+                        else dict(opts, crosscheck=False, unit_timeout=900) if 'fac:svd' in prog.tags     # (sqrt(2) atom: the two external solvers time out on these scripts, as in C08)
+                        else dict(opts)))
     if tier == 'quick':
         for pn in ['exp', 'x*x', 'sin', 'square', 'reciprocal', 'negative', 'x*x[::-1]', 'expm1', 'logit', 'erf', 'dawsn', 'hyperu', 'polygamma1', 'sqrt', 'log', 'absolute']:
             out.append(Unit('C03/%s/D3,P1' % pn, 'symx.props.c03', 'h_prog', {'pname': pn, 'D': 3, 'P': 1}, dict(opts)))
